@@ -24,6 +24,10 @@ checks = {
    text="The untrusted prover's bytes are the environment: from genuine Groth16 and PLONK proofs and public witnesses on each curve, EVERY prefix of every encoding, every single-byte substitution (quick: 4 values/position, thorough: all 255), every list-length-field rewrite with matching and non-matching payload, every list length 0..n+2, every witness header combination from the alphabet and pairs of one proof edit with one witness edit are decoded (with and without Witness.Public()) and verified in isolated worker processes; no panic or process crash, verdict equal to the reference (Groth16) / genuine-pair-only (PLONK), inconsistent structure reported as an error.",
    note="Length prefixes that make gnark-crypto's own decoders allocate gigabytes are excluded (dependency resource question): such worker deaths are attributed by stack frame and counted, any crash whose first frame is in gnark is a violation.",
    technique="exhaustive enumeration of single-fault byte/structure mutations of genuine messages (deviation bound 1, pairs for list x header) against the real decoders and verifiers, with process-level crash detection"),
+ "C10": dict(level=MC, ref="DESIGN.md §2 C10, §1.2",
+   text="Stateless model checking of the implementation: instrumented copies of the current solver, lookup blueprint, provers and verifiers (goinstr rewrites go/chan/select/sync/errgroup into scheduler calls and adds statement-level points in the functions that touch shared state) run under the controlled scheduler vsched; for each scenario (2 Solves sharing a lookup-table system; 2 Proves sharing an option slice; 2 Verifies sharing an option value that carries a hash; the solver's own workers on a wide level) EVERY schedule within the deviation bound is executed and each call must return what it returns alone on fresh objects — no panic, no deadlock (detected exactly: no enabled thread). Plus every call history of length <=2 (thorough 3) on one shared system/key.",
+   note="Threads are serialised at synchronisation operations and at statement-level points of the listed files (instr.json); preemption bound 1 quick / 2 thorough (delay bound for the provers' pipelines); bn254 instantiation of the generated per-curve code; data races below statement granularity need the separate free-running -race pass.",
+   technique="stateless model checking of the real code under a controlled scheduler (preemption/delay-bounded exhaustive schedule enumeration with partial-order reduction for call-private channels)"),
  "C05": dict(level=MC, ref="DESIGN.md §2 C05, §1.5",
    text="Explicit-state model checking of the constraint systems the real compiler emits over the 47-element field: for every API operation x operand-kind pattern x builder and every input tuple, breadth-first search over all values of every other wire (hint outputs included) computes the exact set of satisfiable outputs and compares it with the documented relation; every leaf is re-validated with big-integer arithmetic and every assignment the real solver produces is replayed as a model path. Exhaustive in F_47 for <=2 variable operands, boundary alphabet for 3+.",
    note="Trusts GetR1Cs/GetSparseR1Cs as the rows the backends prove (C02 checks that link for PLONK); algebraic gadgets only — statistical arguments are not decided over F_47; large-field hint substitution is bounded to <=2 departures over a finite alphabet.",
@@ -40,6 +44,7 @@ m={"version":1,
    "source_commits":hooks,"add_only":True},
  "engines":[
   {"name":"explore","path":"/verif/src/vh","serves_properties":sorted(checks),"kind_free_text":"deviation-bounded stateless explorer over Choose() points (schedules, hint answers, map orders, edits), parallel work-stealing DFS, determinism guard"},
+  {"name":"vsched+goinstr","path":"/verif/src/vsched","serves_properties":[c for c in ["C03","C06","C10","C11"] if c in checks],"kind_free_text":"controlled cooperative scheduler over real goroutines + source instrumenter (go/ast) producing overlay copies of the current tree; deadlock = no enabled thread"},
   {"name":"satmc","path":"/verif/src/satmc","serves_properties":[c for c in ["C05","C13","C14"] if c in checks],"kind_free_text":"explicit-state satisfiability search over F_47 on compiled R1CS / sparse R1CS"},
  ],
  "checks":[],"not_applicable":[],
